@@ -210,11 +210,12 @@ def case_store(ctx, inp):
             srcs.append(srcs[0])
         else:
             srcs.append(da.from_array(a, chunks=tuple(tuple(c) for c in s["chunks"])))
-        t = np.full(s["tshape"], -1)
+        shared = bool(inp.get("shared_target")) and len(tgts) > 0
+        t = tgts[0] if shared else np.full(s["tshape"], -1)
         tgts.append(t)
         r = None if s["region"] is None else tuple(_sl(x) for x in s["region"])
         regs.append(r)
-        e = np.full(s["tshape"], -1)
+        e = exps[0] if shared else np.full(s["tshape"], -1)
         e[r if r is not None else tuple(slice(0, n) for n in shape)] = a
         exps.append(e)
     single = inp["single"] and len(srcs) == 1
@@ -280,6 +281,8 @@ def case_store(ctx, inp):
         ctx.branch("store-multi-source")
     if same and len(srcs) > 1:
         ctx.branch("store-same-source-equal-targets")
+    if inp.get("shared_target") and len(srcs) > 1:
+        ctx.branch("store-one-target-several-regions" + ("-same-source" if same else ""))
     if not inp["compute"]:
         ctx.branch("store-compute-false")
     if inp["return_stored"]:
@@ -528,6 +531,29 @@ def generate(ctx):
                         "compute": rng.random() < 0.6, "return_stored": rng.random() < 0.4,
                         "scheduler": rng.choice(["sync", "sync", "threads"]), "delayed_target": rng.random() < 0.15,
                         "one_region_for_all": one}
+    # one target, several pairwise disjoint regions: the same source (same object / an equal one) or different sources
+    for _ in range(ctx.n(30, 400)):
+        k = rng.choice([2, 2, 3])
+        nd = rng.randint(1, 2)
+        shape = [rng.randint(1, 4) for _ in range(nd)]
+        same = rng.choice([None, "object", "equal", "equal"])
+        sources, off = [], 0
+        tshape = None
+        for i in range(k):
+            chunks = [list(random_chunks(rng, n, zeros=0.1)) for n in shape]
+            step = rng.choice([1, 1, 2])
+            start = off + rng.randint(0, 2)
+            stop = start + step * shape[0]
+            off = stop + rng.randint(0, 2)
+            region = [[start, stop, None if step == 1 else step]] + [[0, n, None] for n in shape[1:]]
+            sources.append({"chunks": chunks, "region": region, "tshape": None})
+        tshape = [off + rng.randint(0, 3)] + shape[1:]
+        for src in sources:
+            src["tshape"] = tshape
+        yield "store", {"same_source": same, "shared_target": True, "sources": sources, "single": False,
+                        "lock": rng.choice(["true", "false", "lock", "slock"]), "compute": rng.random() < 0.6,
+                        "return_stored": rng.random() < 0.3, "scheduler": rng.choice(["sync", "sync", "threads"]),
+                        "delayed_target": False, "one_region_for_all": False}
     # targets > 1 MB with identical content: several targets in one call, separate compute=False calls computed
     # together, one shared target with disjoint regions
     for _ in range(ctx.n(28, 300)):
